@@ -1,7 +1,321 @@
-(** Proofs about the tax-report model (Model/TaxReport.v). *)
+(** Proofs about the tax-report model (Model/TaxReport.v): row arithmetic of the fraction loop
+    (per-sheet row indexes shared by all assets), the resulting cell contents, removal of empty
+    sheets, capacity.  Finite facts about the generated tables are in the second half. *)
+From Coq Require Import List ZArith Bool Lia Permutation.
 From RP2V Require Import Base.Prelude Base.Time Base.Dec Base.Sorting Base.Assoc Model.Types Model.Generated Model.Txn
-  Model.Computed Model.Grid Model.ReportInput Model.TaxReport.
+  Model.Matcher Model.Pipeline Model.Computed Model.Grid Model.ReportInput Model.TaxReport Proofs.AssocProofs Proofs.FilterProofs.
+Import ListNotations.
 Open Scope Z_scope.
 
-Lemma stub_us_sell : type_to_sheet tax_tables_us SELL = Some [67; 97; 112; 105; 116; 97; 108; 32; 71; 97; 105; 110; 115].
-Proof. vm_compute. reflexivity. Qed.
+(** ---------- strings and string-keyed dictionaries *)
+Lemma str_eqb_eq : forall a b, str_eqb a b = true <-> a = b.
+Proof.
+  induction a as [|x a IH]; intros [|y b]; cbn [str_eqb]; split; intro H; try reflexivity; try discriminate.
+  - apply andb_true_iff in H. destruct H as [H1 H2]. apply Z.eqb_eq in H1. apply IH in H2. congruence.
+  - inversion H; subst. apply andb_true_iff. split; [apply Z.eqb_refl | apply IH; reflexivity].
+Qed.
+Lemma str_eqb_refl a : str_eqb a a = true.
+Proof. apply str_eqb_eq. reflexivity. Qed.
+Lemma str_eqb_neq a b : str_eqb a b = false <-> a <> b.
+Proof.
+  split; intro H.
+  - intro E. apply str_eqb_eq in E. congruence.
+  - destruct (str_eqb a b) eqn:E; [apply str_eqb_eq in E; contradiction | reflexivity].
+Qed.
+Lemma str_eqb_sym a b : str_eqb a b = str_eqb b a.
+Proof.
+  destruct (str_eqb a b) eqn:E.
+  - apply str_eqb_eq in E. subst. symmetry. apply str_eqb_refl.
+  - symmetry. apply str_eqb_neq. apply str_eqb_neq in E. congruence.
+Qed.
+
+Lemma smem_In k l : smem k l = true <-> In k l.
+Proof.
+  unfold smem. rewrite existsb_exists. split.
+  - intros [x [H1 H2]]. apply str_eqb_eq in H2. subst. exact H1.
+  - intro H. exists k. split; [exact H | apply str_eqb_refl].
+Qed.
+
+Lemma str_nodup_NoDup l : str_nodup l = true -> NoDup l.
+Proof.
+  induction l as [|x l IH]; cbn [str_nodup]; intro H; [constructor|].
+  apply andb_true_iff in H. destruct H as [H1 H2]. constructor; [|apply IH; exact H2].
+  intro HI. apply smem_In in HI. rewrite HI in H1. discriminate.
+Qed.
+
+Lemma z_nodup_NoDup l : z_nodup l = true -> NoDup l.
+Proof.
+  induction l as [|x l IH]; cbn [z_nodup]; intro H; [constructor|].
+  apply andb_true_iff in H. destruct H as [H1 H2]. constructor; [|apply IH; exact H2].
+  intro HI. apply negb_true_iff in H1. rewrite <- not_true_iff_false in H1. apply H1.
+  apply existsb_exists. exists x. split; [exact HI | apply Z.eqb_refl].
+Qed.
+
+Section SDict.
+Context {V : Type}.
+Lemma sget_sset (n k : str) (v : V) m : sget n (sset k v m) = if str_eqb n k then Some v else sget n m.
+Proof.
+  induction m as [|[k' v'] m IH]; cbn [sset sget].
+  - reflexivity.
+  - destruct (str_eqb k k') eqn:E; cbn [sget].
+    + apply str_eqb_eq in E. subst k'. destruct (str_eqb n k); reflexivity.
+    + rewrite IH. destruct (str_eqb n k') eqn:E2; [|reflexivity].
+      apply str_eqb_eq in E2. subst k'. rewrite (str_eqb_sym n k), E. reflexivity.
+Qed.
+Lemma sget_In (k : str) (v : V) m : sget k m = Some v -> In (k, v) m.
+Proof.
+  induction m as [|[k' v'] m IH]; cbn [sget]; [discriminate|].
+  destruct (str_eqb k k') eqn:E; intro H.
+  - apply str_eqb_eq in E. inversion H; subst. left. reflexivity.
+  - right. apply IH. exact H.
+Qed.
+Lemma In_sget (k : str) (v : V) m : NoDup (map fst m) -> In (k, v) m -> sget k m = Some v.
+Proof.
+  induction m as [|[k' v'] m IH]; cbn [sget map fst]; intros ND HI; [contradiction|].
+  inversion ND as [|? ? Hn ND']; subst. destruct HI as [HI|HI].
+  - inversion HI; subst. rewrite str_eqb_refl. reflexivity.
+  - destruct (str_eqb k k') eqn:E.
+    + apply str_eqb_eq in E. subst k'. exfalso. apply Hn. apply in_map_iff. exists (k, v). split; [reflexivity|exact HI].
+    + apply IH; assumption.
+Qed.
+Lemma sget_map_const (k : str) (v : V) l : sget k (map (fun n => (n, v)) l) = if smem k l then Some v else None.
+Proof.
+  induction l as [|x l IH]; cbn [map sget smem existsb]; [reflexivity|].
+  destruct (str_eqb k x); [reflexivity|]. exact IH.
+Qed.
+End SDict.
+
+(** ---------- the last write to a cell wins *)
+Lemma final_cells_app ws w :
+  final_cells (ws ++ [w]) = aset (cell_key (cw_row w) (cw_col w)) (cw_val w) (final_cells ws).
+Proof. unfold final_cells. rewrite fold_left_app. reflexivity. Qed.
+
+Lemma cell_at_unique : forall ws r c v,
+  In (cw r c v) ws ->
+  (forall w, In w ws -> cell_key (cw_row w) (cw_col w) = cell_key r c -> cw_val w = v) ->
+  cell_at ws r c = v.
+Proof.
+  intros ws r c v. induction ws as [|w ws IH] using rev_ind; intros HI HU; [contradiction|].
+  unfold cell_at. rewrite final_cells_app. rewrite aget_d_aset.
+  destruct (cell_key r c =? cell_key (cw_row w) (cw_col w)) eqn:E.
+  - apply Z.eqb_eq in E. apply HU; [apply in_or_app; right; left; reflexivity | symmetry; exact E].
+  - apply in_app_or in HI. destruct HI as [HI|[HI|[]]].
+    + apply IH; [exact HI|]. intros w' Hw'. apply HU. apply in_or_app. left. exact Hw'.
+    + subst w. cbn in E. rewrite Z.eqb_refl in E. discriminate.
+Qed.
+
+Lemma cell_key_inj r c r' c' : 0 <= c < 1024 -> 0 <= c' < 1024 -> cell_key r c = cell_key r' c' -> r = r' /\ c = c'.
+Proof. unfold cell_key. intros. lia. Qed.
+
+(** ---------- the fraction loop *)
+Section Loop.
+Variable T : trtables.
+Notation step := (tt_row_step T).
+
+Definition app_writes (s : sheetw) (ws : list cellw) : sheetw :=
+  {| sw_name := sw_name s; sw_rows := sw_rows s; sw_cols := sw_cols s; sw_writes := sw_writes s ++ ws |}.
+Lemma app_writes_nil s : app_writes s [] = s.
+Proof. destruct s. unfold app_writes. cbn. rewrite app_nil_r. reflexivity. Qed.
+Lemma app_writes_app s a b : app_writes (app_writes s a) b = app_writes s (a ++ b).
+Proof. unfold app_writes. cbn. rewrite app_assoc. reflexivity. Qed.
+
+Definition rowd (rows : list (str * Z)) (n : str) : Z := match sget n rows with Some r => r | None => 0 end.
+
+Lemma add_writes_names n ws l : map sw_name (add_writes n ws l) = map sw_name l.
+Proof.
+  induction l as [|s l IH]; cbn [add_writes map]; [reflexivity|].
+  destruct (str_eqb (sw_name s) n); cbn [map sw_name]; [reflexivity|]. rewrite IH. reflexivity.
+Qed.
+
+Lemma add_writes_map n ws l : NoDup (map sw_name l) ->
+  add_writes n ws l = map (fun s => if str_eqb (sw_name s) n then app_writes s ws else s) l.
+Proof.
+  induction l as [|s l IH]; cbn [add_writes map]; intro ND; [reflexivity|].
+  inversion ND as [|? ? Hn ND']; subst.
+  destruct (str_eqb (sw_name s) n) eqn:E.
+  - f_equal. apply str_eqb_eq in E. subst n.
+    clear IH ND ND'. induction l as [|s' l IH]; [reflexivity|]. cbn [map].
+    destruct (str_eqb (sw_name s') (sw_name s)) eqn:E.
+    + exfalso. apply Hn. left. apply str_eqb_eq in E. exact E.
+    + f_equal. apply IH. intro H. apply Hn. right. exact H.
+  - f_equal. apply IH. exact ND'.
+Qed.
+
+Lemma routed_target n it m : type_to_sheet T (it_type it) = Some m -> routed T n it = str_eqb m n.
+Proof. unfold routed. intros ->. reflexivity. Qed.
+
+Lemma nrouted_cons n it l : nrouted T n (it :: l) = (if routed T n it then 1 else 0) + nrouted T n l.
+Proof. unfold nrouted. cbn [filter]. destruct (routed T n it); cbn [length]; lia. Qed.
+Lemma nrouted_app n a b : nrouted T n (a ++ b) = nrouted T n a + nrouted T n b.
+Proof. unfold nrouted. rewrite filter_app, app_length, Nat2Z.inj_add. reflexivity. Qed.
+Lemma nrouted_nil n : nrouted T n [] = 0.
+Proof. reflexivity. Qed.
+Lemma nrouted_nonneg n l : 0 <= nrouted T n l.
+Proof. unfold nrouted. lia. Qed.
+
+Lemma spec_writes_app n : forall a r b,
+  spec_writes T n r (a ++ b) = spec_writes T n r a ++ spec_writes T n (r + step * nrouted T n a) b.
+Proof.
+  induction a as [|it a IH]; intros r b; cbn [app spec_writes].
+  - replace (r + step * nrouted T n []) with r by (unfold nrouted; cbn; ring). reflexivity.
+  - rewrite nrouted_cons. destruct (routed T n it).
+    + rewrite IH, <- app_assoc. replace (r + step * (1 + nrouted T n a)) with (r + step + step * nrouted T n a) by ring. reflexivity.
+    + rewrite IH. replace (r + step * (0 + nrouted T n a)) with (r + step * nrouted T n a) by ring. reflexivity.
+Qed.
+
+Lemma spec_writes_none n : forall l r, nrouted T n l = 0 -> spec_writes T n r l = [].
+Proof.
+  induction l as [|it l IH]; intros r H; cbn [spec_writes]; [reflexivity|].
+  rewrite nrouted_cons in H. pose proof (nrouted_nonneg n l). destruct (routed T n it); [lia|]. apply IH. lia.
+Qed.
+
+(** inversion of one iteration *)
+Lemma place_inv st it st' : place T st it = Ok st' ->
+  exists n s r, type_to_sheet T (it_type it) = Some n /\ find_sheet n (ts_sheets st) = Some s /\ sget n (ts_rows st) = Some r
+    /\ forallb (in_capacity s) (row_writes r it) = true
+    /\ st' = {| ts_rows := sset n (r + step) (ts_rows st); ts_sheets := add_writes n (row_writes r it) (ts_sheets st) |}.
+Proof.
+  unfold place. destruct (type_to_sheet T (it_type it)) as [n|] eqn:E1; [|discriminate].
+  destruct (find_sheet n (ts_sheets st)) as [s|] eqn:E2; [|discriminate].
+  destruct (sget n (ts_rows st)) as [r|] eqn:E3; [|discriminate].
+  destruct (forallb (in_capacity s) (row_writes r it)) eqn:E; [|discriminate].
+  intro H. injection H as H. subst st'. exists n, s, r. split; [reflexivity|]. split; [exact E2|]. split; [exact E3|].
+  split; [exact E | reflexivity].
+Qed.
+
+(** the loop over a list of fractions: every row index advances by the number of fractions routed to
+    its sheet; every sheet receives exactly [spec_writes] after what it held *)
+Lemma place_all_spec : forall l st st', NoDup (map sw_name (ts_sheets st)) -> place_all T st l = Ok st' ->
+  (forall n, sget n (ts_rows st') = match sget n (ts_rows st) with Some r => Some (r + step * nrouted T n l) | None => None end)
+  /\ ts_sheets st' = map (fun s => app_writes s (spec_writes T (sw_name s) (rowd (ts_rows st) (sw_name s)) l)) (ts_sheets st).
+Proof.
+  induction l as [|it l IH]; intros st st' ND H; cbn [place_all] in H.
+  - inversion H; subst. split.
+    + intro n. destruct (sget n (ts_rows st')); [f_equal; unfold nrouted; cbn; lia | reflexivity].
+    + cbn [spec_writes]. rewrite <- (map_id (ts_sheets st')) at 1. apply map_ext. intro s. symmetry. apply app_writes_nil.
+  - destruct (place T st it) as [st1|] eqn:HP; [|discriminate].
+    destruct (place_inv _ _ _ HP) as [m [s [r [Hm [Hs [Hr [_ Hst1]]]]]]].
+    assert (ND1 : NoDup (map sw_name (ts_sheets st1))) by (subst st1; cbn [ts_sheets]; rewrite add_writes_names; exact ND).
+    destruct (IH st1 st' ND1 H) as [IHr IHs]. split.
+    + intro n. rewrite IHr. subst st1. cbn [ts_rows]. rewrite sget_sset, nrouted_cons, (routed_target n it m Hm).
+      destruct (str_eqb n m) eqn:E.
+      * apply str_eqb_eq in E. subst n. rewrite Hr, str_eqb_refl. f_equal. lia.
+      * rewrite (str_eqb_sym m n), E. destruct (sget n (ts_rows st)); [f_equal; lia | reflexivity].
+    + rewrite IHs. subst st1. cbn [ts_sheets ts_rows]. rewrite (add_writes_map _ _ _ ND), map_map. apply map_ext. intro s0.
+      cbn [spec_writes]. rewrite (routed_target (sw_name s0) it m Hm).
+      destruct (str_eqb (sw_name s0) m) eqn:E.
+      * assert (Hn : sw_name s0 = m) by (apply str_eqb_eq; exact E).
+        rewrite app_writes_app. cbn [app_writes sw_name]. rewrite Hn, str_eqb_refl. unfold rowd.
+        rewrite sget_sset, str_eqb_refl, Hr. reflexivity.
+      * rewrite (str_eqb_sym m (sw_name s0)), E. unfold rowd. rewrite sget_sset, E. reflexivity.
+Qed.
+
+(** ---------- where a fraction lands *)
+Lemma split_nth {A} : forall (l : list A) k x, nth_error l k = Some x -> l = firstn k l ++ x :: skipn (S k) l.
+Proof.
+  induction l as [|y l IH]; intros [|k] x H; cbn in H; try discriminate.
+  - inversion H. reflexivity.
+  - cbn [firstn skipn app]. f_equal. apply IH. exact H.
+Qed.
+Lemma firstn_S_nth {A} : forall (l : list A) k x, nth_error l k = Some x -> firstn (S k) l = firstn k l ++ [x].
+Proof.
+  induction l as [|y l IH]; intros [|k] x H; cbn in H; try discriminate.
+  - inversion H. reflexivity.
+  - cbn [firstn app]. f_equal. apply IH. exact H.
+Qed.
+
+(** row of the k-th fraction of the list on sheet [n], when the sheet's row index starts at [r] *)
+Definition row_of (n : str) (r : Z) (l : list item) (k : nat) : Z := r + step * nrouted T n (firstn k l).
+
+Lemma spec_writes_at n r l k it : nth_error l k = Some it -> routed T n it = true ->
+  spec_writes T n r l = spec_writes T n r (firstn k l) ++ row_writes (row_of n r l k) it
+                        ++ spec_writes T n (row_of n r l k + step) (skipn (S k) l).
+Proof.
+  intros Hk Hr. rewrite (split_nth l k it Hk) at 1. rewrite spec_writes_app. cbn [spec_writes]. rewrite Hr. reflexivity.
+Qed.
+
+Lemma In_spec_writes n : forall l r w, In w (spec_writes T n r l) ->
+  exists j it, nth_error l j = Some it /\ routed T n it = true /\ In w (row_writes (row_of n r l j) it).
+Proof.
+  unfold row_of. induction l as [|it l IH]; intros r w H; cbn [spec_writes] in H; [contradiction|].
+  destruct (routed T n it) eqn:E.
+  - apply in_app_or in H. destruct H as [H|H].
+    + exists O, it. split; [reflexivity|]. split; [exact E|]. cbn [firstn].
+      replace (r + step * nrouted T n []) with r by (unfold nrouted; cbn; ring). exact H.
+    + destruct (IH _ _ H) as [j [it' [H1 [H2 H3]]]]. exists (S j), it'. split; [exact H1|]. split; [exact H2|].
+      cbn [firstn]. rewrite nrouted_cons, E.
+      replace (r + step * (1 + nrouted T n (firstn j l))) with (r + step + step * nrouted T n (firstn j l)) by ring. exact H3.
+  - destruct (IH _ _ H) as [j [it' [H1 [H2 H3]]]]. exists (S j), it'. split; [exact H1|]. split; [exact H2|].
+    cbn [firstn]. rewrite nrouted_cons, E.
+    replace (r + step * (0 + nrouted T n (firstn j l))) with (r + step * nrouted T n (firstn j l)) by ring. exact H3.
+Qed.
+
+Lemma nrouted_firstn_mono n : forall l a b, (a <= b)%nat -> nrouted T n (firstn a l) <= nrouted T n (firstn b l).
+Proof.
+  induction l as [|x l IH]; intros a b H.
+  - rewrite !firstn_nil. lia.
+  - destruct a as [|a]; [cbn [firstn]; rewrite nrouted_nil; apply nrouted_nonneg|].
+    destruct b as [|b]; [lia|]. cbn [firstn]. rewrite !nrouted_cons. specialize (IH a b). lia.
+Qed.
+
+Lemma nrouted_firstn_lt n l j k it : (j < k)%nat -> nth_error l j = Some it -> routed T n it = true ->
+  nrouted T n (firstn j l) < nrouted T n (firstn k l).
+Proof.
+  intros Hjk Hj Hr. pose proof (nrouted_firstn_mono n l (S j) k Hjk) as H.
+  rewrite (firstn_S_nth l j it Hj), nrouted_app, nrouted_cons, Hr, nrouted_nil in H. lia.
+Qed.
+
+(** two different fractions of one sheet never share a row *)
+Lemma rows_distinct n r l j k itj itk : 0 < step -> j <> k ->
+  nth_error l j = Some itj -> nth_error l k = Some itk -> routed T n itj = true -> routed T n itk = true ->
+  row_of n r l j <> row_of n r l k.
+Proof.
+  intros Hs Hne Hj Hk Rj Rk. unfold row_of.
+  destruct (Nat.lt_ge_cases j k) as [L|L].
+  - pose proof (nrouted_firstn_lt n l j k itj L Hj Rj). nia.
+  - assert (L' : (k < j)%nat) by lia. pose proof (nrouted_firstn_lt n l k j itk L' Hk Rk). nia.
+Qed.
+
+Lemma NoDup_fst_inj {A B} (l : list (A * B)) a b b' : NoDup (map fst l) -> In (a, b) l -> In (a, b') l -> b = b'.
+Proof.
+  induction l as [|[x y] l IH]; cbn [map fst]; intros ND H1 H2; [contradiction|].
+  inversion ND as [|? ? Hn ND']; subst.
+  destruct H1 as [H1|H1], H2 as [H2|H2].
+  - congruence.
+  - inversion H1; subst. exfalso. apply Hn. apply in_map_iff. exists (a, b'). split; [reflexivity|exact H2].
+  - inversion H2; subst. exfalso. apply Hn. apply in_map_iff. exists (a, b). split; [reflexivity|exact H1].
+  - apply IH; assumption.
+Qed.
+
+Definition item_wf (it : item) : Prop :=
+  NoDup (map fst (it_cells it)) /\ Forall (fun cv => 0 <= fst cv < 1024) (it_cells it).
+
+(** the cell (row of the fraction, column) holds the fraction's value at the end: nothing written
+    before (template cells above the first row) or after (other fractions) replaces it *)
+Lemma cell_at_spec n pre r l k it c v :
+  0 < step ->
+  (forall w, In w pre -> cw_row w < r /\ 0 <= cw_col w < 1024) ->
+  Forall item_wf l ->
+  nth_error l k = Some it -> routed T n it = true -> In (c, v) (it_cells it) ->
+  cell_at (pre ++ spec_writes T n r l) (row_of n r l k) c = v.
+Proof.
+  intros Hs Hpre Hwf Hk Hr Hc.
+  assert (Hit : item_wf it) by (rewrite Forall_forall in Hwf; apply Hwf; eapply nth_error_In; exact Hk).
+  assert (Hcr : 0 <= c < 1024) by (destruct Hit as [_ F]; rewrite Forall_forall in F; apply (F (c, v) Hc)).
+  apply cell_at_unique.
+  - apply in_or_app. right. rewrite (spec_writes_at n r l k it Hk Hr). apply in_or_app. right. apply in_or_app. left.
+    unfold row_writes. apply in_map_iff. exists (c, v). split; [reflexivity | exact Hc].
+  - intros w Hw Hkey. apply in_app_or in Hw. destruct Hw as [Hw|Hw].
+    + destruct (Hpre w Hw) as [H1 H2]. destruct (cell_key_inj _ _ _ _ H2 Hcr Hkey) as [E _].
+      exfalso. unfold row_of in E. pose proof (nrouted_nonneg n (firstn k l)). nia.
+    + destruct (In_spec_writes n l r w Hw) as [j [it' [Hj [Rj Hin]]]].
+      unfold row_writes in Hin. apply in_map_iff in Hin. destruct Hin as [[c' v'] [Ew Hc']]. subst w. cbn [cw cw_row cw_col cw_val fst snd] in *.
+      assert (Hit' : item_wf it') by (rewrite Forall_forall in Hwf; apply Hwf; eapply nth_error_In; exact Hj).
+      assert (Hcr' : 0 <= c' < 1024) by (destruct Hit' as [_ F]; rewrite Forall_forall in F; apply (F (c', v') Hc')).
+      destruct (cell_key_inj _ _ _ _ Hcr' Hcr Hkey) as [Er Ec]. subst c'.
+      destruct (Nat.eq_dec j k) as [Ejk|Ejk].
+      * subst j. rewrite Hk in Hj. inversion Hj; subst it'. destruct Hit as [ND _]. exact (NoDup_fst_inj _ _ _ _ ND Hc' Hc).
+      * exfalso. exact (rows_distinct n r l j k it' it Hs Ejk Hj Hk Rj Hr Er).
+Qed.
+
+End Loop.
